@@ -9,9 +9,10 @@ open Ptk Ptk.Py Ptk.Proto Ptk.C17
   n ≥ 0 = `other n` (n < 0x110000: the character, else an editing key, see `Ed`).
 
   stateful commands (reply = the observable state):
-    init k | W n k1..kn | S | R n | F     (S is ignored once k prompts have finished)
+    init k r | W n k1..kn | S | R n | F | E   (r = output answers CPR requests; S is ignored once
+                                                k prompts have finished; E = the CPR wait ends)
   one-shot:
-    E2E k  <events…>   events: w n k1..kn | s | r n | f
+    E2E k r <events…>   events: w n k1..kn | s | r n | f | e
       reply: results and the unconsumed keys
 -/
 
@@ -50,14 +51,21 @@ def showSt (s : St) : String :=
   let e := Ed.render s.kp.applied
   let d := match s.kp.done with | none => "N" | some k => encKey k
   let cur : String := if s.running then s!"{encStr e.text} {e.cur}" else "- -"
-  s!"run={encBool s.running} done={d} buf={cur} q={encKeys s.kp.queue} ta={encKeys s.typeahead} res={encList encRes s.results}"
+  s!"run={encBool s.running} ex={encBool s.exiting} w={s.kp.waiting} done={d} buf={cur} q={encKeys s.kp.queue} ta={encKeys s.typeahead} res={encList encRes s.results}"
 
 /-- `start`, and when the typeahead already contained an accepting key the `await f`
     does not yield: the exit path runs before anything else can happen. -/
 def startEv (s : St) : St :=
-  if s.running then s else
+  if s.running || s.exiting then s else
   let s1 := step s .start
   if s1.kp.done.isSome then step s1 .finish else s1
+
+/-- the harness lets the loop run until the finished application has left: everything that is
+    readable is read first (only while CPR answers are outstanding), then the wait ends -/
+def endWaitEv (s : St) : St :=
+  if !s.exiting then s else
+  let s1 := if 0 < s.kp.waiting && !s.pipe.isEmpty then step s (.read 1000000) else s
+  step s1 .endWait
 
 /-! second layer (`Ptk.C17.Buf` with the concrete emacs registry): commands
      Binit k | BW n k1..kn | BS | BR n | BT | BF      and     BE2E k <events…> (w/s/r/t/f) -/
@@ -83,7 +91,8 @@ def encResB (r : List Disp × Emacs.S) : String := s!"{kindOf r.1}:{encStr r.2.e
 def showB (s : BSt) : String :=
   let d := if s.kp.done then (if s.kp.crashed then "X" else kindOf s.kp.trace) else "N"
   let cur : String := if s.running then s!"{encStr s.kp.ed.e.text} {s.kp.ed.e.cur}" else "- -"
-  s!"run={encBool s.running} done={d} buf={cur} kb={encKeys s.kp.buffer} q={encList encQK s.kp.queue} ta={encList encQK s.typeahead} res={encList encResB s.results}"
+  let arg : String := if !s.running then "-" else match s.kp.arg with | none => "N" | some a => toString a
+  s!"run={encBool s.running} done={d} buf={cur} arg={arg} kb={encKeys s.kp.buffer} q={encList encQK s.kp.queue} ta={encList encQK s.typeahead} res={encList encResB s.results}"
 
 def startEvB (s : BSt) : BSt :=
   if s.running then s else
@@ -144,10 +153,10 @@ def stepLine (ds : DS) (toks : List String) : DS × String :=
   let ret (s' : St) : DS × String := (((s', kmax), ds.2), showSt s')
   let bad : DS × String := (ds, "bad-op")
   match toks with
-  | ["init", k] =>
-    match decNat k with
-    | some k => (((St.init, k), ds.2), showSt St.init)
-    | none => bad
+  | ["init", k, r] =>
+    match decNat k, decBool r with
+    | some k, some r => (((St.init r, k), ds.2), showSt (St.init r))
+    | _, _ => bad
   | ["Binit", k] =>
     match decNat k with
     | some k => (((s, k), B.initB), B.showB B.initB)
@@ -175,10 +184,12 @@ def stepLine (ds : DS) (toks : List String) : DS × String :=
     | some n => ret (step s (.read n))
     | none => bad
   | ["F"] => ret (step s .finish)
-  | "E2E" :: k :: evs =>
-    match decNat k with
-    | none => bad
-    | some k =>
+  | ["E"] => ret (endWaitEv s)
+  | "E2E" :: k :: r :: evs =>
+    match decNat k, decBool r with
+    | none, _ => bad
+    | _, none => bad
+    | some k, some r =>
       let rec go (fuel : Nat) (st : St) (ts : List String) : Option St :=
         match fuel with
         | 0 => none
@@ -187,6 +198,7 @@ def stepLine (ds : DS) (toks : List String) : DS × String :=
           | [] => some st
           | "s" :: ts => go fuel (if st.results.length < k then startEv st else st) ts
           | "f" :: ts => go fuel (step st .finish) ts
+          | "e" :: ts => go fuel (endWaitEv st) ts
           | "r" :: n :: ts =>
             match decNat n with
             | some n => go fuel (step st (.read n)) ts
@@ -199,7 +211,7 @@ def stepLine (ds : DS) (toks : List String) : DS × String :=
               | none => none
             | none => none
           | _ => none
-      match go (evs.length + 1) St.init evs with
+      match go (evs.length + 1) (St.init r) evs with
       | some st =>
         let left := st.typeahead ++ dropCpr st.kp.queue ++ dropCpr st.pipe
         (ds, s!"run={encBool st.running} res={encList encRes st.results} left={encKeys left}")
@@ -209,4 +221,4 @@ def stepLine (ds : DS) (toks : List String) : DS × String :=
     | some bs => ((ds.1, bs), B.showB bs)
     | none => bad
 
-def main : IO Unit := runS stepLine ((St.init, 0), B.initB)
+def main : IO Unit := runS stepLine ((St.init false, 0), B.initB)
